@@ -370,13 +370,7 @@ def compress_inputs(rng, tier, codec):
     big.append(("two150k", bytes(rng.choice(b"xy") for _ in range(150000))))
     big.append(("rand100k", rnd(rng, 100000)))
     if tier == "quick":
-        rng.shuffle(big)
-        keep = [b for b in big if b[0] in ("alias4", "zeros200k")] + big[:7]
-        seen = set(); big2 = []
-        for b in keep:
-            if b[0] not in seen:
-                seen.add(b[0]); big2.append(b)
-        big = big2
+        pass                                                    # all of them: they are cheap on the implementation
     else:
         for _ in range(4):
             n = rng.randrange(300000, 1500000)
@@ -444,3 +438,16 @@ def run_all(vlib, exe, lines, timeout=900, max_deaths=12):
             outs[k + 1:j] = o2
             pending += p2
     return outs, deaths
+
+
+def coqchk(vlib, rep, pid):
+    """thorough tier: independent re-check of the compiled cone by coqchk (also reports axioms)"""
+    if rep.proof_error:
+        return
+    p = vlib.sh(["timeout", "2400", "coqchk", "-silent", "-o", "-Q", "theories", "Carquet",
+                 f"Carquet.Props.Properties_{pid}"], cwd=vlib.COQ)
+    txt = p.stdout + p.stderr
+    clean = p.returncode == 0 and "Axioms: <none>" in txt
+    rep.cov["coqchk"] = "ok, no axioms" if clean else txt[-600:]
+    if not clean:
+        rep.broken.append(("proof", f"coqchk does not accept the compiled proofs of {pid}: " + txt[-400:], None))
